@@ -1,6 +1,6 @@
 (* C12/Witness.v — non-vacuity of the hypotheses of Properties.v and concrete instances
    (all by computation). *)
-From Verif Require Import Common.Base C12.Model C12.Proofs1 C12.Proofs2 C12.Proofs3 C12.Proofs4 C12.Proofs5 C12.Proofs7 C12.Proofs8 C12.Proofs9 C12.Proofs10.
+From Verif Require Import Common.Base C12.Model C12.Proofs1 C12.Proofs2 C12.Proofs3 C12.Proofs4 C12.Proofs5 C12.Proofs7 C12.Proofs8 C12.Proofs9 C12.Proofs10 C12.Harness C12.Clauses.
 From Coq Require Import Ascii.
 Require Coq.Strings.String.
 Import Coq.Strings.String.StringSyntax.
@@ -66,10 +66,13 @@ Example ex_unknown_scheme : rs "${nope:A}" = Err [ENoScheme].
 Proof. vm_compute. reflexivity. Qed.
 Example ex_bad_scheme : rs "${x:A}" = Err [EInvalidURI].
 Proof. vm_compute. reflexivity. Qed.
+(* by the theorem, not by evaluating the 10 001 rounds of the work budget *)
 Example ex_cycle1 : rs "${env:CY}" = Err [ETooMany].
-Proof. vm_compute. reflexivity. Qed.
-Example ex_cycle2 : rs "a${env:CA}" = Err [ETooMany].
-Proof. vm_compute. reflexivity. Qed.
+Proof.
+  apply (self_cycle_rejected env retr (L"env:CY") (mkRet (CStr (ref_text (L"env:CY"))) None)); reflexivity.
+Qed.
+(* the 2-cycle CA -> CB -> CA (growing text) is proved refused below: ex_cyclic_core (evaluating 10 000 rounds of
+   a growing string inside Coq is too slow to be a witness) *)
 Example ex_unterminated : rs "${env:A" = Ok (CStr (L"${env:A")).
 Proof. vm_compute. reflexivity. Qed.
 (* no default scheme: ${A} is not a reference *)
@@ -192,12 +195,17 @@ Ltac wf_tac :=
 
 Example ex_deep_wf : wf env retr (nval ntxt) ex_deep.
 Proof. unfold wf, ex_deep. wf_tac. Qed.
+Lemma good_chars d str0 : Forall (tgood env retr ntxt d) (chars str0).
+Proof.
+  unfold chars, lit_tokens. induction (L str0) as [|c l IH]; [constructor|]. cbn [map]. constructor; [|exact IH].
+  unfold lit_tok. destruct (Ascii.eqb c cClose); destruct d; exact I.
+Qed.
 Lemma gA d : tgood env retr ntxt (S d) (TRef (L"env:A")).
 Proof.
   cbn [tgood]. change (ntxt (L"env:A")) with (chars "va"). split; [|split].
   - vm_compute. repeat split; try exact I; intros; discriminate.
   - reflexivity.
-  - vm_compute. destruct d; repeat constructor.
+  - apply good_chars.
 Qed.
 Lemma gR d : tgood env retr ntxt (S (S d)) (TRef (L"env:R")) /\ tgood env retr ntxt (S (S d)) (TRef (L"R")).
 Proof.
@@ -277,7 +285,8 @@ Proof.
          | |- True => exact I
          | |- _ -> _ => intros; discriminate
          end.
-  - unfold good. vm_compute. repeat (apply Forall_cons; [first [exact I | apply (proj1 (gR 1)) | apply (gA 2)]|]). apply Forall_nil.
+  - unfold good, ex_tso. repeat (apply Forall_app; split); try apply good_chars;
+      (apply Forall_cons; [first [apply (proj1 (gR 1)) | apply (gA 2)]|apply Forall_nil]).
 Qed.
 Example ex_list_closed_form :
   resolve_string env retr (ref_text (L"env:YL"))
@@ -291,6 +300,7 @@ Proof.
   - reflexivity.
   - exact ex_list_members.
   - exact ex_list_text.
+  - apply Nat.leb_le. vm_compute. reflexivity.
 Qed.
 Example ex_list_value :
   resolve_string env retr (ref_text (L"env:YL")) = Ok (CExp (CList [CStr (L"a<va>"); CStr (L"vab")]) (L"[a<va>, vab]")).
@@ -320,3 +330,28 @@ Proof.
 Qed.
 Example ex_no_default_text : resolve_string [] retr (L"${A} $$ ${B}x}") = Ok (CStr (L"${A} $ ${B}x}")).
 Proof. apply no_default_colon_free. reflexivity. Qed.
+
+(* the link theorem is not vacuous: a case on which every clause checker SPEAKS (token meaning with a nested
+   reference, plain text, typed whole value), built from the model's own run, passes *)
+Definition ex_cfg : wcfg :=
+  ("env", ["env"],
+   [("env:A", WPVal (WStr "va") None); ("env:R", WPVal (WStr "<${env:A}>") None);
+    ("env:N", WPVal (WInt 42) (Some "42"))]).
+Definition ex_srcs : list wcv :=
+  [WMap [("k0", WStr "x${env:R}$$${A}"); ("k1", WStr "plain $$ text}"); ("k2", WStr "${env:N}")]].
+Example ex_link_speaks :
+  tok_applicable (L"env") (retrieve_tbl ["env"] (snd ex_cfg)) (L"x${env:R}$$${A}") = true /\
+  no_ref_b (L"plain $$ text}") = true /\
+  typed_target (L"env") (retrieve_tbl ["env"] (snd ex_cfg)) (L"${env:N}") = Some (CInt 42, L"42").
+Proof. repeat split; vm_compute; reflexivity. Qed.
+Example ex_link_passes : prop_ok (model_case ex_cfg ex_srcs) = true.
+Proof. apply model_case_passes. vm_compute. repeat constructor; intros H; repeat (destruct H as [H|H]; try discriminate); exact H. Qed.
+Example ex_link_model_answer :
+  model_out (ex_cfg, ex_srcs, WObsErr 0)
+  = MOk (WMap [("k0", WStr "x<va>$va"); ("k1", WStr "plain $ text}"); ("k2", WExp (WInt 42) "42")]).
+Proof. vm_compute. reflexivity. Qed.
+(* the checker is not trivially true: a wrong observation is rejected, with the clause *)
+Example ex_checker_rejects :
+  clause_codes (ex_cfg, ex_srcs, WObsOk (WMap [("k0", WStr "x<va>$va"); ("k1", WStr "plain $$ text}"); ("k2", WInt 42)]) WNil [])
+  = [1; 2; 3].
+Proof. vm_compute. reflexivity. Qed.
